@@ -124,17 +124,34 @@ func codecOp(toks []string) (out string) {
 		exp, _ := strconv.ParseInt(toks[2], 10, 64)
 		enc := ds.NewKey(string(name), exp).Encode()
 		dec := "N"
-		if k, err := ds.DecodeKey(enc); err == nil {
+		buf := append([]byte(nil), enc...)
+		if k, err := ds.DecodeKey(buf); err == nil {
 			dec = fmt.Sprintf("%s:%d", showBytes([]byte(k.Name)), k.Expiration)
+			// the decoded key must not depend on the buffer it came from (Pebble recycles the
+			// iterator's key buffer while the store keeps the decoded keys)
+			for i := range buf {
+				buf[i] ^= 0xA5
+			}
+			if after := fmt.Sprintf("%s:%d", showBytes([]byte(k.Name)), k.Expiration); after != dec {
+				dec = dec + " ALIASED(" + after + ")"
+			}
 		}
 		return fmt.Sprintf("enc=%s dec=%s", showBytes(enc), dec)
 	case "dk":
 		b := mustArgs(toks[1:2])[0]
-		k, err := ds.DecodeKey(b)
+		buf := append([]byte(nil), b...)
+		k, err := ds.DecodeKey(buf)
 		if err != nil {
 			return "N"
 		}
-		return fmt.Sprintf("%s:%d", showBytes([]byte(k.Name)), k.Expiration)
+		out := fmt.Sprintf("%s:%d", showBytes([]byte(k.Name)), k.Expiration)
+		for i := range buf {
+			buf[i] ^= 0xA5
+		}
+		if after := fmt.Sprintf("%s:%d", showBytes([]byte(k.Name)), k.Expiration); after != out {
+			out = out + " ALIASED(" + after + ")"
+		}
+		return out
 	case "ev":
 		v := buildVal(toks[1], mustArgs(toks[2:]))
 		orig := compact(dumpVal(v))
